@@ -66,6 +66,11 @@ func verifNewDelay(delay time.Duration, n int) *verifDelay {
 	for k := 0; k < n; k++ {
 		c := newChunkUDP(&net.UDPAddr{IP: net.IPv4(1, 2, 3, 4), Port: 1}, &net.UDPAddr{IP: net.IPv4(5, 6, 7, 8), Port: 2})
 		c.userData = []byte{byte(k)}
+		if k%2 == 1 {
+			// a chunk that was stamped upstream (a router stamps on entry) some time before it reaches the filter:
+			// the filter's delay counts from the arrival at the filter, not from that stamp
+			c.timestamp = vtime.Now()
+		}
 		v.sink.ids[c.Tag()] = k
 		v.senders = append(v.senders, cosched.Go("s", func() { f.onInboundChunk(c) }))
 	}
